@@ -214,4 +214,78 @@ example : SecInv { versions := (∅ : VMap).insert 1 [97], active := 1, latest :
   refine ⟨⟨by simp, ?_⟩, by simp⟩
   intro k hk; simp at hk; subst hk; simp
 
+/-! ### the reads, in both directions
+
+`DBMon.c02_reads_total` is the monitor clause the driver evaluates on what the real code
+answered: a granted read with the audit log working is answered exactly what the map holds,
+and "not found" exactly when it holds nothing there; a listing shows exactly the names the
+caller may see.  The model's own step satisfies it for every state, caller and operation, so
+the clause demands nothing the specification does not. -/
+
+/-- the model's step, seen as an observation -/
+def obsOf (kv : KV) (c : Caller) (op : Op) (aok sok : Bool) : StepObs :=
+  let r := step Cfg.std kv c op aok sok
+  { pre := kv, caller := c, op := op, auditOk := aok, saveOk := sok, res := r.2.1, entries := r.2.2,
+    entryBefore := none, post := r.1, mem := none }
+
+/-- a listing walks the names in order and reports each secret's versions and active version -/
+theorem list_items (kv : KV) (g : String → Bool) (l : List (String × Secret))
+    (hl : ∀ p ∈ l, kv.secrets[p.1]? = some p.2) :
+    (((l.map (·.1)).filter g).filterMap fun n => match info kv n with
+        | .ok (vs, a) => some (n, vs, a)
+        | .error _ => none) =
+    (l.filter (fun p => g p.1)).map (fun p => (p.1, p.2.versions.keys, p.2.active)) := by
+  induction l with
+  | nil => rfl
+  | cons p rest ih =>
+    have hp := hl p (List.mem_cons_self)
+    have ih' := ih (fun q hq => hl q (List.mem_cons_of_mem _ hq))
+    simp only [List.map_cons, List.filter_cons]
+    by_cases hg : g p.1 = true
+    · have hinfo : info kv p.1 = .ok (p.2.versions.keys, p.2.active) := by simp [KV.info, hp]
+      simp only [hg, if_true, List.filterMap_cons, List.map_cons, hinfo]
+      rw [ih']
+    · simp only [hg, Bool.false_eq_true, if_false]
+      exact ih'
+
+/-- the specification's step satisfies the total-reads clause, always -/
+theorem reads_total_on_model (kv : KV) (c : Caller) (op : Op) (aok sok : Bool) :
+    c02_reads_total (obsOf kv c op aok sok) = true := by
+  cases aok with
+  | false => simp [c02_reads_total, obsOf]
+  | true =>
+    cases op with
+    | get n =>
+      simp only [c02_reads_total, obsOf, step, checkAndLog, allowed, granted, Cfg.std]
+      by_cases hg : Acl.allow true c.rules "get" n.toList = true
+      · simp [hg, KV.get]
+        cases h : kv.secrets[n]? with
+        | none => simp [kvErr]
+        | some s => cases h2 : s.versions[s.active]? <;> simp [h2]
+      · simp [hg]
+    | getVersion n k =>
+      simp only [c02_reads_total, obsOf, step, checkAndLog, allowed, granted, Cfg.std]
+      by_cases hg : Acl.allow true c.rules "get" n.toList = true
+      · simp [hg, KV.getVersion]
+        cases h : kv.secrets[n]? with
+        | none => simp [kvErr]
+        | some s => cases h2 : s.versions[k]? <;> simp [h2, kvErr]
+      · simp [hg]
+    | info n =>
+      simp only [c02_reads_total, obsOf, step, checkAndLog, allowed, granted, Cfg.std]
+      by_cases hg : Acl.allow true c.rules "info" n.toList = true
+      · simp [hg, KV.info]
+        cases h : kv.secrets[n]? <;> simp [kvErr]
+      · simp [hg]
+    | list =>
+      simp only [c02_reads_total, obsOf, step, allowed, granted, Cfg.std, KV.list]
+      have := list_items kv (fun n => Acl.allow true c.rules "info" n.toList) kv.secrets.toList
+        (fun p hp => by
+          have := (ExtTreeMap.mem_toList_iff_getElem?_eq_some (t := kv.secrets) (k := p.1) (v := p.2)).mp hp
+          exact this)
+      simp only [ExtTreeMap.map_fst_toList_eq_keys] at this
+      simp
+      exact this
+    | _ => simp [c02_reads_total, obsOf]
+
 end Setec.C02
